@@ -107,7 +107,7 @@ Qed.
 Definition int_alts : list (parser Z) := [ int_hex; map_res digit1 (parse_unsigned 10 i64_max) ].
 Lemma p_int_eq lf i : p_int_constant lf i =
   (do i, minus <- many0_count lf (tag sym_int_minus) i ;; do i, v <- alt int_alts i ;; POk i (if Nat.odd minus then (- v)%Z else v)).
-Proof. reflexivity. Qed.
+Proof. exact (Proofs.Partial.p_int_constant_is_total lf i). Qed.
 
 Theorem rt_int lf i k : wf_int i = true -> int_stops i k = true -> length (pr_int i k) < lf ->
   p_int_constant lf (pr_int i k) = POk k (erase_int i).
